@@ -2,7 +2,8 @@ import SpecterModel.Util
 import SpecterModel.C36.Model
 /-! C36 line-protocol driver.
 
-error token: wrappers outermost first then the innermost error, joined by `.`: `f` = fmt %w, `o` = net.OpError;
+error token: wrappers outermost first then the innermost error, joined by `.`: `f` = fmt %w, `o` = net.OpError,
+  `u` = url.Error;
   innermost: nf nc nd ca eof dl nt osdl no ot ueof; `-` = no error.
 `lib <err> => <Is nf> <Is nc> <Is nd> <Is canceled> <Is EOF> <Is deadline> <IsTimeout> <IsNoDirect>`   real library / spec/tun predicates
 `http <direct|chain|chain-live> <err> => <status>|silent`
@@ -24,7 +25,7 @@ def parseErr (t : String) : Option Err :=
   | [] => none
   | l :: ws => do
     let k ← parseLeaf l
-    let ws ← ws.reverse.mapM fun w => if w = "f" then some Wrap.fmt else if w = "o" then some Wrap.op else none
+    let ws ← ws.reverse.mapM fun w => if w = "f" then some Wrap.fmt else if w = "o" then some Wrap.op else if w = "u" then some Wrap.url else none
     pure ⟨ws, k⟩
 
 def parseOptErr (t : String) : Option (Option Err) := if t = "-" then some none else (parseErr t).map some
@@ -39,19 +40,26 @@ def frameStr : Frame → String
 def evStr : Ev → String
   | .dial => "dial" | .send f => "send:" ++ frameStr f | .close => "close" | .pipe => "pipe"
 
-/-- In the property's quantifier for the timeout clause: `%w` layers around an (OpError-nested) timeout. A
-`net.OpError` directly around a `%w` layer declares itself a non-timeout `net.Error`: class undetermined, no verdict. -/
+/-- In the property's quantifier for the timeout clause of a net timeout OTHER than the context deadline: `%w`
+layers around an (OpError/url.Error-nested) timeout. A `net.OpError` / `url.Error` directly around a `%w` layer
+declares itself a non-timeout `net.Error`, and nothing else in the chain identifies the value as a timeout:
+class undetermined, no verdict. -/
 def plainStack : List Wrap → Bool
   | .op :: .fmt :: _ => false
+  | .url :: .fmt :: _ => false
   | _ :: rest => plainStack rest
   | [] => true
 
-/-- statement: missing tunnel 404, client offline 503, timeout 504, any other forwarding failure 502. -/
+/-- statement: missing tunnel 404, client offline 503, timeout 504, any other forwarding failure 502.
+The class of an error value is what `errors.Is` reports for the innermost sentinel ("wrapped or not"): a chain that
+contains `context.DeadlineExceeded` IS a timeout whatever the wrappers around it answer themselves, exactly like a
+chain containing `ErrDestinationNotFound` is a missing tunnel. -/
 def httpWant (e : Err) : Option String :=
   match e.leaf with
   | .notFound => some "404"
   | .notConnected => some "503"
-  | .deadline | .netTimeout => if plainStack e.wraps then some "504" else none
+  | .deadline => some "504"
+  | .netTimeout => if plainStack e.wraps then some "504" else none
   | .canceled | .eof => none            -- the caller went away: not a reportable forwarding failure
   | .noDirect | .netOther | .other => some "502"
 
